@@ -2,6 +2,7 @@
   C14 — Deadlock detection is complete for sequential ask cycles.
 -/
 import Rsactor.Inv.NetInv
+import Rsactor.Ties.feature_sites_shape
 import Rsactor.Ties.ask_protocol_shape
 
 namespace Rsactor.Props.C14
@@ -104,6 +105,7 @@ example : ∃ n, run? init [.ask 1 2, .ask 2 3, .ask 3 1] = some n ∧
   refine ⟨_, rfl, ?_, ?_⟩ <;> decide
 
 /-! ### ties to the source -/
+-- @tie Rsactor.Ties.feature_sites_shape
 -- @tie Rsactor.Ties.ask_protocol_shape
 
 end Rsactor.Props.C14
